@@ -541,6 +541,11 @@ def gen_store_case(rng, prop, tier):
             knobs["omit_contig_lines"] = w["omit_contig_lines"] = [rng.choice(w["chroms"])["name"]]
         if rng.random() < 0.15:
             knobs["initial_gz"] = True
+        if knobs.get("oddtags") == "values" and rng.random() < 0.3:
+            # phase tags used in records but not declared in the header (partly or wholly)
+            knobs["undeclared_formats"] = w["undeclared_formats"] = rng.choice([["PS"], ["PQ"], ["HP"], ["PS", "PQ"], ["HP", "PQ", "PS"]])
+            if rng.random() < 0.3:
+                w["header"].append('##INFO=<ID=PS,Number=1,Type=Integer,Description="an INFO field that happens to be called PS">')
         n = rng.choice([1, 2, 3])
         ops = [{"op": "unphase"} for _ in range(n)]
         return {"machine": "store", "world": W.clean_world(w), "ops": ops, "knobs": knobs, "state0": []}
@@ -612,6 +617,9 @@ def gen_store_case(rng, prop, tier):
                     ex["mapping_quality"] = rng.choice([0, 60])
                 if ex:
                     op["extra"] = ex
+            if rng.random() < 0.12:
+                # verbosity is not an input: `whatshap --debug phase ...` must write the same file
+                op.setdefault("extra", {})["debug_logging"] = True
             if name == "phase":
                 op["tag"] = rng.choice(["PS", "HP"])
                 if rng.random() < 0.15:
@@ -628,6 +636,8 @@ def gen_store_case(rng, prop, tier):
         else:
             op = {"op": "from_vcf", "source": rng.randrange(-1, k), "tag": rng.choice(["PS", "HP"]),
                   "base": rng.choice(["current", "current", "initial-unphased"])}
+            if rng.random() < 0.15:
+                op["debug"] = True
             ops.append(op)
     if knobs["many_sets"] and prop == "C09":
         ops.insert(0, {"op": "from_vcf", "source": -1, "tag": rng.choice(["PS", "HP"]), "base": rng.choice(["current", "initial-unphased"])})
@@ -698,7 +708,19 @@ class StoreRun:
 
     # -- whatshap invocations
     def _phase(self, inputs, variant_file, out, tag, samples=None, chroms=None, noref=False, only_snvs=False, distrust=False, extra=None):
-        return call_in_fork(lambda: self._phase_here(inputs, variant_file, out, tag, samples, chroms, noref, only_snvs, distrust, extra))
+        debug = bool((extra or {}).get("debug_logging"))
+        extra = {k: v for k, v in (extra or {}).items() if k != "debug_logging"} or None
+
+        def work():
+            if debug:
+                # what `whatshap --debug ...` does: root logger at DEBUG (here into a handler that discards)
+                logging.disable(logging.NOTSET)
+                root = logging.getLogger()
+                root.handlers[:] = [logging.NullHandler()]
+                root.setLevel(logging.DEBUG)
+            return self._phase_here(inputs, variant_file, out, tag, samples, chroms, noref, only_snvs, distrust, extra)
+
+        return call_in_fork(work)
 
     def _phase_here(self, inputs, variant_file, out, tag, samples=None, chroms=None, noref=False, only_snvs=False, distrust=False, extra=None):
         from whatshap.cli.phase import run_whatshap
@@ -898,7 +920,7 @@ class StoreRun:
                                                          samples=op.get("samples") and tsamples, chroms=op.get("chroms") and tchroms,
                                                          noref=op.get("noref", False), only_snvs=op.get("only_snvs", False),
                                                          distrust=op.get("distrust", False), extra=op.get("extra")), "C09", "phase-crashed",
-                               rare_options=bool(op.get("extra") or op.get("distrust")))
+                               rare_options=bool({k for k in (op.get("extra") or {}) if k != "debug_logging"} or op.get("distrust")))
         if not ok:
             return False
         written, touched = res
@@ -1035,7 +1057,7 @@ class StoreRun:
         out = self.newfile("fromvcf_%s" % tag)
         self.last_input = base
         what = "op %d phase_from_vcf(source=state %d,tag=%s,base=%s)" % (i, src, tag, op.get("base", "current"))
-        ok, res = self.guarded(what, lambda: self._phase([source], base, out, tag), "C09", "phase-crashed")
+        ok, res = self.guarded(what, lambda: self._phase([source], base, out, tag, extra={"debug_logging": True} if op.get("debug") else None), "C09", "phase-crashed")
         if not ok:
             return False
         written, touched = res
@@ -1110,6 +1132,8 @@ class StoreRun:
             self.stats.inc("unphase_input_without_contig_lines")
         if self.world.get("omit_contig_lines"):
             self.stats.inc("unphase_input_with_partial_contig_lines")
+        if self.world.get("undeclared_formats"):
+            self.stats.inc("unphase_input_with_undeclared_phase_tags")
         from whatshap.cli import CommandLineError
 
         try:
